@@ -895,7 +895,7 @@ func (ex *Exec) ghostVar(st *State, name string) *Term {
 	if !ok {
 		ex.fail("unknown ghost variable %s", name)
 	}
-	t := ex.p.Const("ghost:"+name+"@0", ex.specSort(g.Type, ""))
+	t := ex.p.Const("ghost:"+name+"@0", ex.specSort(g.Type, g.PkgPath))
 	st.ghost[name] = t
 	return t
 }
